@@ -62,6 +62,31 @@ def expr_of_operand(fn, o, depth=0, seen=None, at=None):
     return E("unknown")
 
 
+def _variant_payloads(fn, l, variant, fidx, depth=0):
+    """operands stored as field `fidx` of variant `variant` by the definitions of local l (moves of
+    whole locals are followed); None if some definition cannot be classified"""
+    if depth > 6:
+        return None
+    out = []
+    for d in def_sites(fn, l):
+        if d[1] != "assign":
+            return None
+        rv = d[2]["rv"]
+        if rv["k"] == "agg":
+            if rv.get("variant") == variant and fidx < len(rv["ops"]):
+                out.append(rv["ops"][fidx])
+            elif rv.get("variant") is None:
+                return None
+        elif rv["k"] == "use" and rv["x"].get("k") in ("copy", "move") and not rv["x"]["p"]:
+            sub = _variant_payloads(fn, rv["x"]["l"], variant, fidx, depth + 1)
+            if sub is None:
+                return None
+            out += sub
+        else:
+            return None
+    return out
+
+
 def expr_of_place(fn, p, depth=0, seen=None, at=None):
     base = expr_of_local(fn, p["l"], depth, seen, at)
     cur = base
@@ -75,7 +100,32 @@ def expr_of_place(fn, p, depth=0, seen=None, at=None):
                 continue
             if "f" in pe:
                 nm = pe["n"]
+                if variant is not None and cur.k == "agg" and cur.b == variant and cur.c and pe["f"] < len(cur.c):
+                    cur = cur.c[pe["f"]]        # payload of a variant literal
+                    variant = None
+                    continue
                 if variant is not None:
+                    # payload of a variant of a value built in this body: if exactly one definition of
+                    # the local constructs that variant, the payload is that definition's operand
+                    if cur.k == "local" and cur.b is fn and depth < MAXD:
+                        cands = _variant_payloads(fn, cur.a, variant, pe["f"])
+                        if cands is not None and len(cands) == 1:
+                            cur = expr_of_operand(fn, cands[0], depth + 1, seen, at)
+                            variant = None
+                            continue
+                    # `x?`: the Continue payload of Try::branch(x) is the Ok/Some payload of x
+                    if variant == "Continue" and cur.k == "call" and cur.a.path == "std::ops::Try::branch" and cur.a.args and depth < MAXD:
+                        a0 = cur.a.args[0]
+                        if a0.get("k") in ("copy", "move"):
+                            ty0 = cur.a.fn.locals[a0["l"]].get("path", "")
+                            v0 = "Ok" if ty0.endswith("Result") else "Some" if ty0.endswith("Option") else None
+                            if v0 is not None:
+                                inner = expr_of_place(cur.a.fn, {"l": a0["l"], "p": list(a0["p"]) + [{"variant": v0, "vi": 0 if v0 == "Ok" else 1}, {"f": pe["f"], "n": pe["n"]}]},
+                                                      depth + 1, seen, at)
+                                if not (inner.k == "field" and inner.b == "%s.%s" % (v0, pe["n"])):     # resolved to the stored operand
+                                    cur = inner
+                                    variant = None
+                                    continue
                     nm = "%s.%s" % (variant, nm)
                     variant = None
                 # field i of a tuple literal built in this body: the i-th operand
@@ -642,8 +692,12 @@ def result_kind_of_ret(fn):
                     out.append((b, "ok" if rv["variant"] == "Some" else "err", E("agg", rv["path"], rv["variant"], None)))
                 elif rv["k"] == "use":
                     x = rv["x"]
-                    if x.get("k") in ("copy", "move") and not x["p"] and x["l"] not in seen and x["l"] > fn.argc and len(seen) < 8 \
-                            and len(def_sites(fn, x["l"])) > 1:
+                    xd = def_sites(fn, x["l"]) if x.get("k") in ("copy", "move") and not x["p"] else []
+                    chain_move = len(xd) == 1 and xd[0][1] == "assign" and xd[0][2]["rv"]["k"] == "use" and \
+                        xd[0][2]["rv"]["x"].get("k") in ("copy", "move") and not xd[0][2]["rv"]["x"]["p"] and \
+                        len(def_sites(fn, xd[0][2]["rv"]["x"]["l"])) > 1
+                    if x.get("k") in ("copy", "move") and not x["p"] and x["l"] not in seen and x["l"] > fn.argc and len(seen) < 10 \
+                            and (len(xd) > 1 or chain_move):
                         visit(x["l"], seen | {x["l"]})
                     else:
                         out.append((b, "expr", expr_of_operand(fn, x, 1)))
